@@ -22,7 +22,7 @@ import vlib
 from vlib import read_jsonl, canon_hash
 import sched_util
 
-RULES = r"\.responseClosed\.(\w+)$=closed.$1;^getContext$=ctx.Get;\.build$=build;\.doReceive$=enqueue"
+RULES = r"\.responseClosed\.(\w+)$=closed.$1;^getContext$=ctx.Get;\.build$=build;\.doReceive$=enqueue;^timers\.Get$=timer.Get"
 FILES = [("actor/pid.go", "pid_instr.go", "Ask"),
          ("actor/api.go", "api_instr.go", "Ask,toReceiveContext"),
          ("actor/receive_context.go", "rc_instr.go", "Response"),
@@ -32,6 +32,7 @@ FILES = [("actor/pid.go", "pid_instr.go", "Ask"),
 SIG_CROSS = "ask:stale-reply-into-repooled-channel"
 SIG_LOST = "ask:select-takes-timer-while-reply-is-ready"
 SIG_STOMP = "ask:late-responseClosed-store-on-recycled-context"
+NOISE_BASE = 900000
 APIS = ["pid", "pkg", "remote"]
 
 
@@ -76,6 +77,15 @@ class Script:
         self.ops.append({"op": "tell", "n": n, "target": target})
         return self
 
+    def after_enqueue(self, i):
+        """run asker i until it has enqueued its message and is about to start its timer"""
+        self.ops.append({"op": "run", "t": "A%d" % i, "until_fn": sel_fn(self.asks[i]["api"]), "until_kind": "timer.Get"})
+        return self
+
+    def noise(self, kind, n, target=0):
+        self.ops.append({"op": "noise", "kind": kind, "n": n, "target": target})
+        return self
+
     def keep_ctx(self, i):
         self.ops.append({"op": "keep_only_ctx", "i": i})
         return self
@@ -104,6 +114,24 @@ def scripts(ctx):
         s = Script("W-store-before-rebuild-" + api).op("drain_ch_pool").op("drain_ctx_pool").start(0, api, 2000, 1).to_select(0).wait(0).run_done("R0")
         s.tell(1).keep_ctx(0).run_done("A0").start(1, api, 2000, 1).to_select(1).wait(1).run_done("R1").run_done("A1")
         out.append(s)
+    # the target answers, and the mailbox recycles the context (optionally another Ask rebuilds it), while the
+    # asker is still between its enqueue and its select: the asker must already hold its own channel
+    for api in APIS:
+        for reuse in (False, True):
+            s = Script("W-recycled-before-asker-waits-%s%s" % (api, "-reused" if reuse else "")).op("drain_ch_pool").op("drain_ctx_pool")
+            s.start(0, api, 1500, 1).after_enqueue(0).wait(0).run_done("R0").tell(1).keep_ctx(0)
+            if reuse:
+                s.start(1, api, 2000, 1).to_select(1).wait(1).run_done("R1").run_done("A1")
+            s.run_done("A0")
+            out.append(s)
+    # deliveries that are not Asks (Tell, PipeTo, PipeToName) to an actor that calls Response on them: no Ask,
+    # before or after, may see such a reply
+    for kind in ("tell", "pipe", "pipename"):
+        for api in APIS[:2] if kind != "pipe" else APIS:
+            s = Script("W-noise-%s-%s" % (kind, api)).op("drain_ch_pool").noise(kind, 2, 0)
+            s.start(0, api, 2000, 1).to_select(0).wait(0).run_done("R0").run_done("A0")
+            s.noise(kind, 1, 1).start(1, api, 2000, 1, 1).to_select(1).wait(1).run_done("R1").run_done("A1")
+            out.append(s)
     n_lost = 36 if ctx.thorough else 14
     for k in range(n_lost):
         api = APIS[k % 3]
@@ -146,7 +174,9 @@ def scripts(ctx):
         nasks = rng.randint(1, 3)
         for i in range(nasks):
             api = rng.choice(APIS)
-            plan = rng.choice(["fast", "fast", "fast2", "both", "noreply", "late", "held"]) if held is None else rng.choice(["fast", "fast2", "both", "noreply"])
+            plan = rng.choice(["fast", "fast", "fast2", "both", "noreply", "late", "held", "early"]) if held is None else rng.choice(["fast", "fast2", "both", "noreply"])
+            if rng.random() < 0.2:
+                s.noise(rng.choice(["tell", "pipe", "pipename"]), rng.randint(1, 2), rng.randrange(2))
             target = 0 if held is None else 1
             A, R = "A%d" % i, "R%d" % i
             if plan in ("fast", "fast2"):
@@ -156,6 +186,13 @@ def scripts(ctx):
                 s.run_done(R)
                 if held is not None and rng.random() < 0.4:
                     s.run_done("R%d" % held); held = None
+                s.run_done(A)
+            elif plan == "early":
+                s.start(i, api, 1500, 1, target).after_enqueue(i).wait(i).run_done(R)
+                if rng.random() < 0.7:
+                    s.tell(1, target)
+                    if rng.random() < 0.6:
+                        s.keep_ctx(i)
                 s.run_done(A)
             elif plan == "both":
                 s.start(i, api, short, 1, target).to_select(i).wait(i).run_done(R).deadline(i).run_done(A)
@@ -189,7 +226,7 @@ def translate(script, out):
     last_drain = {}
     handled_on = {}     # target -> list of ask ids whose handler ended, in order
     recycled = set()
-    tell_targets = [op.get("target", 0) for op in script.ops if op["op"] == "tell"]
+    tell_targets = [op.get("target", 0) for op in script.ops if op["op"] in ("tell", "noise")]
     tell_idx = 0
     started_handlers = set()
     last_msg_on = {}    # target -> last ask whose handler ended on it
@@ -212,7 +249,7 @@ def translate(script, out):
         if fn == "director":
             if kind == "tick":
                 labels.append("HTick %d" % int(t[1:]))
-            elif kind == "recycle":
+            elif kind in ("recycle", "noise"):
                 tgt = tell_targets[tell_idx] if tell_idx < len(tell_targets) else 0
                 tell_idx += 1
                 j = last_msg_on.get(tgt)
@@ -223,7 +260,7 @@ def translate(script, out):
             continue
         i = int(t[1:])
         if t[0] == "A":
-            if fn == "harness":
+            if fn == "harness" or kind == "timer.Get":
                 continue
             if kind == "ctx.Get":
                 labels.append("HAsker %d %s SelReply" % (i, opt(same_as(i, "ctx"))))
@@ -269,7 +306,9 @@ def oracle(script, out):
     log = out["log"]
     for a in out["asks"]:
         i = a["id"]
-        if a["reply"] >= 0 and a["reply"] != i:
+        if a["reply"] >= NOISE_BASE:
+            bad.append(("ask:reply-to-a-message-that-was-not-an-ask", "Ask #%d (%s) returned the value the target passed to Response while handling a %s message (not an Ask)" % (i, a["api"], "Tell/PipeTo/PipeToName")))
+        elif a["reply"] >= 0 and a["reply"] != i:
             bad.append((SIG_CROSS, "Ask #%d (%s) returned the reply to request #%d" % (i, a["api"], a["reply"])))
         if a["reply"] < 0:
             # did the handler's first Response call return before the deadline passed?
@@ -301,16 +340,41 @@ def oracle(script, out):
 
 
 def stress_oracle(recs):
+    """real timing, no model: a violation is attributed to a listed finding only when it has that finding's shape"""
     bad = []
+    by_id = {r["id"]: r for r in recs}
     for r in recs:
-        if r["reply"] >= 0 and r["reply"] != r["id"]:
-            bad.append((SIG_CROSS, "stress: Ask #%d (%s) returned the reply to request #%d" % (r["id"], r["api"], r["reply"]), r))
+        if r["reply"] >= NOISE_BASE:
+            bad.append(("ask:reply-to-a-message-that-was-not-an-ask", "stress: Ask #%d (%s) returned the value its target passed to Response while handling a Tell/PipeTo/PipeToName message" % (r["id"], r["api"]), r))
+        elif r["reply"] >= 0 and r["reply"] != r["id"]:
+            owner = by_id.get(r["reply"])
+            if owner is not None and owner["reply"] < 0 and owner["end_ns"] <= r["end_ns"]:
+                # the listed shape: the reply's own Ask had given up (and re-pooled its channel) before
+                bad.append((SIG_CROSS, "stress: Ask #%d (%s) returned the reply to request #%d, whose own Ask had timed out" % (r["id"], r["api"], r["reply"]), r))
+            else:
+                bad.append(("ask:cross-delivery-of-a-reply-whose-ask-had-not-given-up", "stress: Ask #%d (%s) returned the reply to request #%d although that Ask had not timed out" % (r["id"], r["api"], r["reply"]), r))
         elif r["reply"] < 0 and r["sent_ns"] and r["sent_ns"] < r["start_ns"] + r["timeout_ns"] - 50000:
             bad.append((SIG_LOST, "stress: Ask #%d (%s, timeout %dus) returned %r although the handler's Response calls had returned %dus before the earliest possible deadline" %
                         (r["id"], r["api"], r["timeout_ns"] // 1000, r["err"], (r["start_ns"] + r["timeout_ns"] - r["sent_ns"]) // 1000), r))
         elif r["reply"] < 0 and "timed out" not in r["err"] and "deadline" not in r["err"]:
             bad.append(("ask:unexpected-error", "stress: Ask #%d failed with %r" % (r["id"], r["err"]), r))
     return bad
+
+
+def remote_oracle(recs):
+    """PID.Ask to a remote PID over loopback TCP; returns (violations, other_errors)"""
+    bad, other = [], []
+    for r in recs:
+        if r["reply"] >= 0 and r["reply"] != r["id"]:
+            bad.append(("remote-ask:reply-to-another-request", "remote Ask #%d (%s sequence %d, position %d) returned the reply to request #%d" % (r["id"], r["mode"], r["seq"], r["index"], r["reply"]), r))
+        elif r["reply"] < 0:
+            timeoutish = "timed out" in r["err"] or "deadline" in r["err"] or "timeout" in r["err"]
+            if not timeoutish:
+                other.append(r)
+            elif r["delay_us"] * 20 + 100000 < r["timeout_us"]:
+                bad.append(("remote-ask:in-time-reply-lost", "remote Ask #%d (%s sequence %d, position %d) failed with %r after %d us although its target answers within %d us and the deadline was %d us" %
+                            (r["id"], r["mode"], r["seq"], r["index"], r["err"], r["took_us"], r["delay_us"], r["timeout_us"]), r))
+    return bad, other
 
 
 def run(ctx):
@@ -333,16 +397,18 @@ def run(ctx):
     with open(os.path.join(ctx.work, "c15_in.jsonl"), "w") as f:
         for k, s in enumerate(scs):
             f.write(json.dumps({"id": k, "name": s.name, "script": s.ops}) + "\n")
-    for fn in ("c15_out.jsonl", "c15_stress.jsonl"):
+    for fn in ("c15_out.jsonl", "c15_stress.jsonl", "c15_remote.jsonl"):
         p = os.path.join(ctx.work, fn)
         if os.path.exists(p):
             os.remove(p)
-    env = {"VERIF_C15_ASKERS": "32" if ctx.thorough else "16", "VERIF_C15_PER_ASKER": "400" if ctx.thorough else "100"}
-    rc, gout = sched_util.go_test_overlay(ctx, ["actor"], "^TestVerifC15", {"actor": ["zz_verif_C15_hook.go", "zz_verif_C15_test.go"]},
+    env = {"VERIF_C15_ASKERS": "32" if ctx.thorough else "16", "VERIF_C15_PER_ASKER": "400" if ctx.thorough else "100",
+           "VERIF_C15_REMOTE_SEQS": "20" if ctx.thorough else "5"}
+    rc, gout = sched_util.go_test_overlay(ctx, ["actor"], "^TestVerifC15", {"actor": ["zz_verif_C15_hook.go", "zz_verif_C15_test.go", "zz_verif_C15remote_test.go"]},
                                           insts, env=env, timeout=1500 if ctx.thorough else 600)
     ctx.log("go harness done rc=%d" % rc)
     outs = read_jsonl(os.path.join(ctx.work, "c15_out.jsonl"))
     stress = read_jsonl(os.path.join(ctx.work, "c15_stress.jsonl"))
+    remote = read_jsonl(os.path.join(ctx.work, "c15_remote.jsonl"))
     if rc != 0 or len(outs) != len(scs):
         ctx.tie_broken("go-harness actor (instrumented Ask paths): build or run failed", gout)
     broken = [(s, o) for s, o in zip(scs, outs) if o.get("error")]
@@ -410,6 +476,21 @@ def run(ctx):
             continue
         ctx.violation(sig, "%s [%d of %d stress asks]" % (lst[0][0], len(lst), len(stress)), {"level": "stress", "record": lst[0][1]})
 
+    # remote leg
+    rbad, rother = remote_oracle(remote)
+    rsig = {}
+    for sig, text, r in rbad:
+        rsig.setdefault(sig, []).append((text, r))
+    for sig, lst in rsig.items():
+        seqs = sorted({x[1]["seq"] for x in lst})
+        ctx.violation(sig, "%s [%d of %d remote Asks]" % (lst[0][0], len(lst), len(remote)),
+                      {"level": "PID.Ask over loopback remoting", "first": lst[0][1],
+                       "the_sequence_it_belongs_to": [x for x in remote if x["seq"] == lst[0][1]["seq"]], "sequences_affected": seqs})
+    if rother:
+        ctx.notes.append("%d of %d remote Asks failed with a non-timeout error (first: %r); not judged" % (len(rother), len(remote), rother[0]["err"]))
+    if rc == 0 and (not remote or len(rother) * 2 > len(remote)):
+        ctx.tie_broken("remote Ask harness did not run (no records or mostly transport errors)", {"records": len(remote), "first_error": rother[0]["err"] if rother else None})
+
     # ---------------- the theorems ----------------
     ctx.log("oracles done; building Properties/C15.vo")
     if not ctx.coq_property():
@@ -422,7 +503,7 @@ def run(ctx):
                 if len({e["t"] for e in o["log"]}) >= 2}
     st_err = sum(1 for r in stress if r["reply"] < 0)
     ctx.coverage.update({
-        "evaluations": len(outs) + len(stress),
+        "evaluations": len(outs) + len(stress) + len(remote),
         "distinct_nontrivial": len(distinct),
         "rule": "scripted interleavings of 1-3 Asks over the three Ask implementations (PID.Ask, package Ask, handleRemoteAsk): witness scripts (stale reply into a re-pooled channel, reply and timer both ready, late store on a recycled context, stale reply found in the pool) then seeded compositions of plans {fast, double Response, both ready, no reply, late reply, responder held between CAS and send} with pool draining and context recycling; non-trivial = at least an asker and a handler thread took steps; distinct by (script, results, context/channel identities). Stress: real goroutines, timeouts 0.3-2.8 ms, handler delays around the deadline",
         "samples": [{"script": scs[0].name, "ops": scs[0].ops[:8]}, {"log": outs[0]["log"][:12] if outs else None},
@@ -430,7 +511,8 @@ def run(ctx):
         "scripts": len(scs), "scripts_replayed_through_model": len(rows), "model_mismatches": len(mism),
         "steps_logged": sum(len(o.get("log") or []) for o in outs),
         "both_ready_trials": n_lost_trials, "both_ready_trials_lost": n_lost, "of_which_by_cancellation": n_cancel_trials,
-        "stress_asks": len(stress), "stress_errors": st_err,
+        "stress_asks": len(stress), "stress_errors": st_err, "remote_asks": len(remote),
+        "remote_asks_given_up": sum(1 for r in remote if r["reply"] < 0),
         "oracle_findings_by_signature": {k: len(v) for k, v in seen.items()},
         "ask_shape_repaired": fixed_shape,
         "theorems": THEOREMS,
